@@ -201,6 +201,33 @@ fn payload_values(rng: &mut impl Rng, n: usize) -> Vec<(String, ReplicationDelta
             out.push(("payload".to_string(), ReplicationDelta::new(key.to_string(), v, ReplicaId::new(r))));
         }
     }
+    // values chosen so that a checksum of their encoded image takes an edge value (all zeros, all ones, one bit)
+    for target in [0u32, u32::MAX, 1, 1 << 31] {
+        for codec in ["wal", "segment", "checkpoint"] {
+            let mut bytes = b"tok=....;v=1".to_vec();
+            let mk = |b: &[u8]| ReplicationDelta::new("session:42".to_string(), lww(b.to_vec(), 200, 1), ReplicaId::new(1));
+            let sum_of = |b: &[u8]| -> u32 {
+                let d = mk(b);
+                match codec {
+                    "wal" => WalEntry::from_delta(&d, 200).map(|e| e.checksum).unwrap_or(7),
+                    "segment" => {
+                        let mut w = SegmentWriter::new(Compression::None);
+                        let _ = w.write_delta(&d);
+                        w.finish().ok().and_then(|img| SegmentReader::open(&img).ok().map(|r| r.footer().data_checksum)).unwrap_or(7)
+                    }
+                    _ => {
+                        let mut st = HashMap::new();
+                        st.insert(d.key.clone(), d.value.clone());
+                        CheckpointWriter::new(Compression::None).write(st, 12345, 7).ok()
+                            .map(|img| u32::from_le_bytes([img[img.len() - 16], img[img.len() - 15], img[img.len() - 14], img[img.len() - 13]])).unwrap_or(7)
+                    }
+                }
+            };
+            if forge_crc(&mut bytes, 4, target, &sum_of) {
+                out.push((format!("checksum_{codec}_{target:08x}"), mk(&bytes)));
+            }
+        }
+    }
     // metadata: vector clocks, replication factor, tombstones
     for (i, (t, r)) in stamps.iter().enumerate() {
         let mut v = lww(b"v".to_vec(), *t, *r);
